@@ -27,82 +27,105 @@ def _assigns(flow):
 
 def rule_compact(ctx):
     ctx.rule("C13.compact", "T6", "_create_return: the unique index array that builds the inverse map is the one that selects the data")
+    from ..flow import elementwise
+    from ..core import clone
     f = ctx.func(COL, "Collocator._create_return")
     flow = Flow(f)
-    loops = [st for st in flow.stmts if isinstance(st, ast.For) and calls_in(st.iter, "enumerate")]
-    if not loops:
-        raise AnalysisError("_create_return: enumerate loop over the datasets not found")
-    lp = loops[0]
-    i, dsv = [norm(e) for e in lp.target.elts]
-    en = calls_in(lp.iter, "enumerate")[0]
-    order = [norm(e) for e in en.args[0].elts] if isinstance(en.args[0], (ast.List, ast.Tuple)) else None
-    A = _assigns(flow)
-    names_def = [st for n, sts in A.items() for st in sts if isinstance(st.value, (ast.List, ast.Tuple)) and len(st.value.elts) == 2
-                 and [norm(e) for e in st.value.elts] == ["primary_name", "secondary_name"]]
-    ctx.ob("_create_return.order", order == ["primary", "secondary"] and bool(names_def),
-           "datasets enumerated as %s, names as %s" % (order, [norm(s.value) for s in names_def]),
-           "[primary, secondary] paired with [primary_name, secondary_name]", node=lp, func=f)
-    names = names_def[0].targets[0].id if names_def else "names"
     OP = "original_pairs"
+    IDX = "_i"
+    # the loop over the two datasets, in any parallel spelling (enumerate / zip / index loop): everything below is
+    # expressed in one common index _i
+    lp = m = None
+    for st in flow.stmts:
+        if isinstance(st, ast.For) and calls_in(st, "unique"):
+            m_ = elementwise(st.target, st.iter, IDX)
+            if m_ is not None:
+                lp, m = st, m_
+                break
+    if lp is None:
+        if not calls_in(f.node, "unique"):
+            ctx.ob("_create_return.unique", False, "no unique() call at all", "the distinct original indices of row i are computed with unique(): any order of the pairs, every repetition removed",
+                   node=f.node, func=f)
+            return
+        raise AnalysisError("_create_return: loop over the datasets (enumerate / zip / index) not found")
+    loopvars = tuple(m)
+
+    def R(e, at, stop=()):
+        """e at statement `at`, temporaries looked through, loop variables replaced by their element-wise forms"""
+        e = flow.resolve(e, at=at, depth=4, stop=tuple(stop) + loopvars + (OP,))
+
+        class S(ast.NodeTransformer):
+            def visit_Name(self, n):
+                return clone(m[n.id]) if isinstance(n.ctx, ast.Load) and n.id in m else n
+        e = ast.fix_missing_locations(S().visit(clone(e)))
+        return flow.resolve(e, at=lp, depth=2, stop=tuple(stop) + (OP, IDX))
+    DS = "[primary, secondary][%s]" % IDX
+    NM = "[primary_name, secondary_name][%s]" % IDX
+    ROW = "%s[%s]" % (OP, IDX)
     # U := unique(original_pairs[i])
-    U = None
-    for n, sts in A.items():
-        for st in sts:
-            if isinstance(st.value, ast.Call) and (dotted(st.value.func) or "").split(".")[-1] == "unique" and st.value.args \
-                    and norm(flow.resolve(st.value.args[0], at=st, depth=2, stop=(OP, i))) == "%s[%s]" % (OP, i):
-                U = (n, st)
-    if U is None:
+    ucalls = [c for c in calls_in(lp, "unique") if c.args and str(norm(R(c.args[0], c))) == ROW]
+    if not ucalls:
         uq = [norm(c)[:60] for c in calls_in(lp, "unique")]
         ctx.ob("_create_return.unique", False, "no `unique(original_pairs[i])` inside the loop (found %s)" % (uq or "no unique call at all"),
                "the distinct original indices of row i are computed with unique(): any order of the pairs, every repetition removed", node=lp, func=f)
         return
-    u = U[0]
-    ufun = dotted(U[1].value.func)
-    ctx.ob("_create_return.unique", ufun in ("pd.unique", "pandas.unique", "np.unique", "numpy.unique"), "%s = %s" % (u, norm(U[1].value)),
-           "the distinct original indices of row i (any order, used consistently below)", node=U[1], func=f)
+    ufuns = set(dotted(c.func) for c in ucalls)
+    UEX = set(str(norm(R(c, c))) for c in ucalls)
+    ctx.ob("_create_return.unique", ufuns <= {"pd.unique", "pandas.unique", "np.unique", "numpy.unique"} and len(UEX) == 1, "%s" % sorted(UEX),
+           "the distinct original indices of row i (any order, used consistently below)", node=ucalls[0], func=f)
+    if len(UEX) != 1:
+        return
+    UEX = list(UEX)[0]
     # inverse map M: M = empty(u.max()+1); M[u] = arange(u.size)
     store = None
     for st in flow.stmts:
-        if isinstance(st, ast.Assign) and isinstance(st.targets[0], ast.Subscript) and norm(st.targets[0].slice) == u:
+        if isinstance(st, ast.Assign) and isinstance(st.targets[0], ast.Subscript) and isinstance(st.targets[0].value, ast.Name) \
+                and any(st is x for x in ast.walk(lp)) and str(norm(R(st.targets[0].slice, st))) == UEX:
             store = st
     okm = False
     M = None
     if store is not None:
-        M = norm(store.targets[0].value)
-        v = norm(store.value).replace(" ", "")
-        okm = v in ("np.arange(%s.size)" % u, "np.arange(len(%s))" % u, "np.arange(%s.shape[0])" % u)
-        mdef = A.get(M, [None])[-1]
-        okm = okm and mdef is not None and "%s.max() + 1" % u in norm(mdef.value)
+        M = st_name = store.targets[0].value.id
+        v = str(norm(R(store.value, store))).replace(" ", "")
+        ux = UEX.replace(" ", "")
+        okm = v in ("np.arange(%s.size)" % ux, "np.arange(len(%s))" % ux, "np.arange(%s.shape[0])" % ux)
+        mdefs = [d for d in flow.defs(M, store) if d != "param"]
+        okm = okm and len(mdefs) == 1 and isinstance(mdefs[0], ast.Assign) and ("%s.max() + 1" % UEX) in str(norm(R(mdefs[0].value, mdefs[0])))
     ctx.ob("_create_return.inverse_map", okm, "%s" % (norm(store) if store is not None else "no store M[unique] = arange"),
-           "M = empty(unique.max() + 1); M[unique] = arange(unique.size)", node=store or U[1], func=f)
+           "M = empty(unique.max() + 1); M[unique] = arange(unique.size)", node=store or ucalls[0], func=f)
     # pairs row: M[original_pairs[i]] appended
     app = [c for c in calls_in(lp, "append")]
     okp = False
     fact = None
     for c in app:
-        v = flow.resolve(c.args[0], at=c, depth=3, stop=(M, OP, i) if M else (OP, i))
-        fact = norm(v)
-        if M and fact == "%s[%s[%s]]" % (M, OP, i):
+        if not c.args:
+            continue
+        fact = str(norm(R(c.args[0], c, stop=(M,) if M else ())))
+        if M and fact == "%s[%s]" % (M, ROW):
             okp = True
     ctx.ob("_create_return.pair_row", okp, "appended pair row = %s" % fact, "M[original_pairs[i]] - row i translated with map i", node=app[0] if app else lp, func=f)
     # data selection
     sel = None
     for st in flow.stmts:
-        if isinstance(st, ast.Assign) and isinstance(st.targets[0], ast.Subscript) and calls_in(st.value, "isel"):
+        if isinstance(st, ast.Assign) and isinstance(st.targets[0], ast.Subscript) and calls_in(st.value, "isel") and any(st is x for x in ast.walk(lp)):
             c = calls_in(st.value, "isel")[0]
-            kw = {k.arg: norm(k.value) for k in c.keywords}
+            kw = {k.arg: k.value for k in c.keywords}
             if "collocation" in kw:
-                sel = (st, norm(st.targets[0].slice), norm(c.func.value), kw["collocation"])
+                sel = (st, str(norm(R(st.targets[0].slice, st))), str(norm(R(c.func.value, st))), str(norm(R(kw["collocation"], st))), kw["collocation"])
                 break
-    oks = sel is not None and sel[3] == u and sel[2] == dsv and sel[1] in ("%s[%s]" % (names, i), "name")
-    # at the store into the inverse map and at the selection, the unique array is THE array computed above (not re-bound on some path)
-    for use in [x for x in (store, sel[0] if sel else None) if x is not None]:
-        if flow.defs(u, use) != [U[1]]:
+    if sel is None:
+        raise AnalysisError("_create_return: the selection output[name] = dataset.isel(collocation=...) was not found")
+    ctx.ob("_create_return.order", sel[2] == DS and sel[1] == NM, "output[%s] = %s.isel(...)" % (sel[1], sel[2]),
+           "[primary, secondary] paired with [primary_name, secondary_name]", node=lp, func=f)
+    oks = sel[3] == UEX
+    redef = None
+    if isinstance(sel[4], ast.Name):
+        ds_ = flow.defs(sel[4].id, sel[0])
+        if len(ds_) > 1:
             oks = False
-            redef = [norm(d)[:60] for d in flow.defs(u, use) if d is not U[1] and not isinstance(d, str)]
-    ctx.ob("_create_return.selection", oks, ("output[%s] = %s.isel(collocation=%s)" % (sel[1:] if sel else (None, None, None))) +
-           ((" [%s re-bound on some path: %s]" % (u, locals().get("redef"))) if locals().get("redef") else ""),
-           "output[names[i]] = dataset_i.isel(collocation=<the same unique array>)", node=sel[0] if sel else lp, func=f)
+            redef = [norm(d)[:60] for d in ds_ if not isinstance(d, str)]
+    ctx.ob("_create_return.selection", oks, ("output[%s] = %s.isel(collocation=%s)" % sel[1:4]) + ((" [index array re-bound on some path: %s]" % redef) if redef else ""),
+           "output[names[i]] = dataset_i.isel(collocation=<the same unique array>)", node=sel[0], func=f)
 
 
 def rule_rows(ctx):
@@ -201,35 +224,72 @@ def rule_binner(ctx):
                                                 and [norm(a) for a in st.value.args] == [prim])]
     ctx.ob("collapse.rows_in_bins", bool(rdefs) and not bad, "%d definitions; not from the reference row: %s" % (len(rdefs), bad or "none"),
            "rows_in_bins = _rows_for_secondaries(<reference row>) on every path (python and numba variant)", node=rdefs[0] if rdefs else f.node, func=f)
-    # binner dims
-    bd = A.get("binner_dims", [None])[0]
-    if bd is None:
-        raise AnalysisError("collapse: the shape of the bin matrix (binner_dims) was not found")
-    okd = False
-    if bd is not None and isinstance(bd.value, ast.List) and len(bd.value.elts) == 2:
-        d0, d1 = [norm(flow.resolve(e, at=bd, depth=2, stop=(rname, prim))).replace(" ", "") for e in bd.value.elts]
-        okd = d0 == "np.max(%s)+1" % rname and d1 in ("np.unique(%s).size" % prim, "np.max(%s)+1" % prim, "%s.max()+1" % prim)
-    ctx.ob("collapse.binner_dims", okd, "binner_dims = %s" % (norm(bd.value) if bd else None),
-           "[max(rows_in_bins) + 1, number of reference points, ...]", node=bd or f.node, func=f)
+    # the bin matrix is what the collapser functions receive; its allocation is found through aliases
+    capp = None
+    for st in flow.stmts:
+        if isinstance(st, ast.For) and norm(st.iter) == "collapser.items()" and isinstance(st.target, ast.Tuple) and len(st.target.elts) == 2:
+            fn = norm(st.target.elts[1])
+            for c in calls_in(st, fn):
+                capp = c
+    if capp is None or not capp.args or not isinstance(capp.args[0], ast.Name):
+        raise AnalysisError("collapse: the application of the collapser functions to the bin matrix was not found")
+    aliases = []
+    cur, at_ = capp.args[0].id, capp
+    alloc = None
+    while True:
+        aliases.append(cur)
+        r_ = flow.single_def_value(cur, at_)
+        if r_ is None:
+            raise AnalysisError("collapse: the bin matrix %s has no single allocation" % cur)
+        if isinstance(r_[0], ast.Name) and r_[0].id not in aliases:
+            cur, at_ = r_[0].id, r_[1]
+            continue
+        alloc, alloc_st = r_
+        break
+    akind = (dotted(alloc.func) or "").split(".")[-1] if isinstance(alloc, ast.Call) else None
+    if akind not in ("empty", "full", "zeros", "ones") or not alloc.args:
+        raise AnalysisError("collapse: allocation of the bin matrix not understood: %s" % norm(alloc)[:80])
+    shp = alloc.args[0]
+    if isinstance(shp, ast.Name):
+        r_ = flow.single_def_value(shp.id, alloc_st)
+        shp_st = r_[1] if r_ else alloc_st
+        shp = r_[0] if r_ else shp
+    else:
+        shp_st = alloc_st
+    if not isinstance(shp, (ast.List, ast.Tuple)) or len(shp.elts) < 2:
+        raise AnalysisError("collapse: the shape of the bin matrix is not a list display: %s" % norm(shp)[:80])
+    d0, d1 = [norm(flow.resolve(e, at=shp_st, depth=2, stop=(rname, prim))).replace(" ", "") for e in shp.elts[:2]]
+    okd = d0 in ("np.max(%s)+1" % rname, "%s.max()+1" % rname) and d1 in ("np.unique(%s).size" % prim, "np.max(%s)+1" % prim, "%s.max()+1" % prim, "len(np.unique(%s))" % prim)
+    ctx.ob("collapse.binner_dims", okd, "shape of the bin matrix = %s" % norm(shp)[:120],
+           "[max(rows_in_bins) + 1, number of reference points, ...]", node=shp_st, func=f)
     # NaN fill before the scatter, scatter indices
     fill = scatter = None
     for st in flow.stmts:
-        if isinstance(st, ast.Assign) and isinstance(st.targets[0], ast.Subscript) and norm(st.targets[0].value) == "binned_data":
-            if norm(st.targets[0].slice) == ":" :
+        if isinstance(st, ast.Assign) and isinstance(st.targets[0], ast.Subscript) and norm(st.targets[0].value) in aliases:
+            if norm(st.targets[0].slice) in (":", "..."):
                 fill = st
             else:
                 scatter = st
-    okf = fill is not None and norm(fill.value) in ("np.nan", "numpy.nan", "float('nan')")
-    bdef = A.get("binned_data", [None])[0]
-    if scatter is None or (fill is None and bdef is None):
-        raise AnalysisError("collapse: the bin matrix `binned_data` (allocation / NaN fill / scatter) was not found")
-    if bdef is not None and "np.full" in norm(bdef.value) and "nan" in norm(bdef.value):
-        okf = True
+        if isinstance(st, ast.Expr) and isinstance(st.value, ast.Call) and isinstance(st.value.func, ast.Attribute) and st.value.func.attr == "fill" \
+                and norm(st.value.func.value) in aliases:
+            fill = st
+    NANS = ("np.nan", "numpy.nan", "float('nan')", "math.nan", "np.NaN")
+    fillv = None
+    if fill is not None:
+        fillv = fill.value if isinstance(fill, ast.Assign) else (fill.value.args[0] if fill.value.args else None)
+    okf = fillv is not None and str(norm(fillv)) in NANS
+    if scatter is None:
+        raise AnalysisError("collapse: the scatter of the partner values into the bin matrix was not found")
+    if akind == "full":
+        fv = alloc.args[1] if len(alloc.args) > 1 else next((k.value for k in alloc.keywords if k.arg == "fill_value"), None)
+        if fill is None:
+            okf = fv is not None and str(norm(fv)) in NANS
+            fillv = fv
     ordered = True
     if fill is not None and scatter is not None:
         ordered = stmt_before(f.node, fill, scatter)
-    ctx.ob("collapse.nan_fill", okf and ordered, "fill: %s" % (norm(fill) if fill else (norm(bdef.value) if bdef else None)),
-           "the bin matrix is pre-filled with NaN before the partner values are scattered into it", node=fill or f.node, func=f)
+    ctx.ob("collapse.nan_fill", okf and ordered, "allocation: %s; fill: %s" % (norm(alloc)[:60], norm(fill)[:60] if fill is not None else None),
+           "the bin matrix is pre-filled with NaN before the partner values are scattered into it", node=fill or alloc_st, func=f)
     oks = False
     if scatter is not None:
         idx = norm(scatter.targets[0].slice).strip("()")
@@ -239,15 +299,8 @@ def rule_binner(ctx):
     ctx.ob("collapse.scatter", oks, "%s" % (norm(scatter)[:120] if scatter else None),
            "binned[rows_in_bins, <reference row>] = var.isel(collocation=<partner row>).values", node=scatter or f.node, func=f)
     # collapser applied along axis 0
-    okc = False
-    fact = None
-    for st in flow.stmts:
-        if isinstance(st, ast.For) and norm(st.iter) == "collapser.items()":
-            fn = norm(st.target.elts[1])
-            for c in calls_in(st, fn):
-                fact = norm(c)
-                okc = [norm(a) for a in c.args] == ["binned_data", "0"]
-    ctx.ob("collapse.apply", okc, "collapser call: %s" % fact, "func(binned_data, 0): statistics over the partners of each reference point", node=f.node, func=f)
+    okc = [norm(a) for a in capp.args[1:]] == ["0"] and not capp.keywords
+    ctx.ob("collapse.apply", okc, "collapser call: %s" % norm(capp), "func(<bin matrix>, 0): statistics over the partners of each reference point", node=capp, func=f)
 
 
 DEFAULTS = {"mean": ("nanmean", "m", "a"), "std": ("nanstd", "m", "a")}
